@@ -333,6 +333,11 @@ def check_world(prop, tier, seed, replay=None):
     if prop == 'C14':
         ring, ring_viol = ring_correspondence(prop, tier, seed, tmodel, rng)
         violations.extend(ring_viol)
+    # 6d. C17: calls made on other threads than the one that constructed the tracer (harness/conc scenario s9)
+    threaded = None
+    if prop == 'C17' and not replay:
+        threaded, thr_viol = threaded_tracer(prop, tier, seed)
+        violations.extend(thr_viol)
     # 7. evidence
     wall = time.time() - t0
     # a broken tie for which a concrete failing input was found is reported with that input only
@@ -358,7 +363,7 @@ def check_world(prop, tier, seed, replay=None):
              % (cfg['enums'], cfg['profiles']),
         samples=['\n'.join(scripts[i][2]) for i in ([0, len(scripts) // 2, len(scripts) - 1] if scripts else [])],
         exhaustive=False,
-        generator_mix=dict(gen_stats), outcome_histogram=dict(hist), notes=notes, spelling_family=spelling, ring_correspondence=ring,
+        generator_mix=dict(gen_stats), outcome_histogram=dict(hist), notes=notes, spelling_family=spelling, ring_correspondence=ring, threaded_tracer=threaded,
         harness_tree=vlib.repo_hash(),
     )
     vlib.write_evidence(prop, tier, seed, 'proof', cov,
@@ -1064,7 +1069,7 @@ def build_conc(kind):
     """h_conc built from /repo's current tree: kind = 'tsan' | 'hook'."""
     import hashlib
     src = os.path.join(vlib.VERIF, 'harness', 'conc', 'h_conc.cpp')
-    flags = {'tsan': ['-std=c++17', '-O1', '-g', '-fsanitize=thread'],
+    flags = {'tsan': ['-std=c++17', '-O1', '-g', '-fsanitize=thread'], 'plain': ['-std=c++17', '-O1', '-g'],
              'hook': ['-std=c++17', '-O1', '-g', '-DTROMPELOEIL_VERIF', '-DTROMPELOEIL_CUSTOM_RECURSIVE_MUTEX']}[kind]
     key = vlib.repo_hash(hashlib.sha256(open(src, 'rb').read()).hexdigest() + kind)
     out = os.path.join(vlib.BUILD, key, 'conc')
@@ -1135,6 +1140,37 @@ def replay_linearization(tmodel, ops):
     return None
 
 
+def threaded_tracer(prop, tier, seed):
+    """scenario s9 of harness/conc (built from /repo's current tree, plain build): a tracer constructed before the worker
+    threads start must receive one record per accepted call whichever thread makes it, and the outer tracer is in effect
+    again after a nested one died.  -> (stats, violations)"""
+    import subprocess
+    try:
+        exe = build_conc('plain')
+    except vlib.BuildError as e:
+        path = vlib.write_replay(prop, tier, seed, 'threaded-build', ['verdict tie-broken', 'broken correspondence h_conc (does not compile against /repo)'],
+                                 str(e).split('\n')[-30:])
+        return dict(error='harness does not compile'), [(path, True)]
+    viol = []
+    runs = 0
+    for sd in range(int(seed) * 10, int(seed) * 10 + (2 if tier == 'quick' else 6)):
+        for nt in (2, 4) if tier == 'quick' else (2, 3, 4, 8):
+            runs += 1
+            try:
+                p = subprocess.run([exe, 's9', str(sd), str(nt), '100'], stdout=subprocess.PIPE, stderr=subprocess.PIPE, universal_newlines=True, timeout=120)
+                out, rc = p.stdout, p.returncode
+            except subprocess.TimeoutExpired:
+                out, rc = 'FAIL hang', 124
+            if rc != 0 or 'FAIL' in out:
+                if len(viol) < 2:
+                    path = vlib.write_replay(prop, tier, seed, 'threaded-%d-%d' % (sd, nt),
+                                             ['verdict violation', 'tracer alive on the main thread, accepted calls made by %d other threads: h_conc_plain s9 %d %d 100' % (nt, sd, nt),
+                                              'build: g++ -std=c++17 -O1 -g -I/repo/include harness/conc/h_conc.cpp -lpthread'],
+                                             [l for l in out.split('\n') if l.strip()][:20])
+                    viol.append((path, False))
+    return dict(runs=runs, failing=len(viol), rule='scenario s9: 100 calls per thread, records received by the tracer = accepted calls'), viol
+
+
 @pure('C12')
 def check_c12(tier, seed, replay):
     import re
@@ -1161,7 +1197,7 @@ def check_c12(tier, seed, replay):
     # 2. ThreadSanitizer: free running with yield/sleep perturbation
     env = dict(os.environ)
     env['TSAN_OPTIONS'] = 'halt_on_error=0:exitcode=66'
-    jobs = [(sc, sd, nt) for sc in ('s1', 's2', 's3', 's4', 's5', 's6', 's7', 's8', 'f1') for sd in seeds for nt in nthreads]
+    jobs = [(sc, sd, nt) for sc in ('s1', 's2', 's3', 's4', 's5', 's6', 's7', 's8', 's9', 'f1') for sd in seeds for nt in nthreads]
 
     def run_tsan(j):
         sc, sd, nt = j
@@ -1192,7 +1228,7 @@ def check_c12(tier, seed, replay):
     unheld = collections.Counter()
     lin_fail = 0
     nops = 0
-    hjobs = [(sc, sd, nt) for sc in ('s1', 's2', 's3', 's4', 's5', 's6', 's7', 's8', 'f1', 'l1') for sd in seeds for nt in nthreads]
+    hjobs = [(sc, sd, nt) for sc in ('s1', 's2', 's3', 's4', 's5', 's6', 's7', 's8', 's9', 'f1', 'l1') for sd in seeds for nt in nthreads]
     try:
         tmodel = vlib.build_lean(None, vlib.LEAN_DIR)
     except vlib.BuildError as e:
